@@ -5,6 +5,8 @@ switches on), attribute kinds, and the abstract view of a Resource.
 import Jsonapi.Model.Schema
 namespace Jsonapi
 
+def idName : GoString := [105, 100]  -- "id"
+
 /-- The fourteen attribute kinds, in the order of the `AttrType*` constants (1..14). -/
 inductive Kind where
   | string | int | int8 | int16 | int32 | int64
